@@ -2,6 +2,8 @@
    Model: Gpbft/Instance.v (Layer N), tied to gpbft.Participant by the event-trace correspondence (harness c07.go). *)
 From Coq Require Import ZArith List Bool Lia.
 From F3 Require Import GoInt QuorumGen Instance InstanceRun InstanceOrder InstanceVotes InstanceConverge InstanceDecide InstanceQuorum InstanceNoPanic InstanceJust QuorumProofs.
+From F3 Require Validator ValidatorProofs ValidatorBridge Refine RefineNode RefineNet.
+From F3 Require Spec.
 Import ListNotations.
 Open Scope Z_scope.
 
@@ -161,6 +163,31 @@ Example C07_no_internal_error_nonvacuous :
                    EvDeliver 2025 (mkM 2 1 CONVERGE [1] 7 (Some (mkJ 0 COMMIT [] [1; 2]))) None;
                    EvDeliver 2030 (mkM 1 0 DECIDE [1; 2] 0 (Some (mkJ 0 COMMIT [1; 2] [1; 2]))) None ] = true.
 Proof. reflexivity. Qed.
+
+(* "validated": a message the validator model (C05, Gpbft/Validator.v -- itself tied to gpbft/validator.go by correspondence)
+   accepts on the one-shot path has the shape wfmb assumed above, whatever chains stand behind its value keys *)
+Theorem C07_validated_is_wfmb : forall net cmt m sender rank v jv,
+  ValidatorProofs.accepts net cmt None m = true ->
+  0 <= Validator.v_round (Validator.g_vote m) < GoInt.two64 ->
+  is_zero v = Validator.ch_is_zero (Validator.v_value (Validator.g_vote m)) ->
+  wfmb (ValidatorBridge.to_inst m sender rank v jv) = true.
+Proof. exact ValidatorBridge.accepts_wfmb. Qed.
+Print Assumptions C07_validated_is_wfmb.
+
+(* "every message it emits is valid under the protocol rules and acceptable to its peers" and "it only ever votes for a
+   value that is a prefix of its own input or for which it has received proof of a strong quorum", on networks of the
+   instance model (RefineNet): after ANY admissible schedule, every broadcast of an honest member is admissible for every
+   peer (its vote is recorded, its justification has the shape validation enforces and is backed by a strong quorum whose
+   honest members cast that vote), and a non-bottom value it votes for is a prefix of its input or has a strong quorum *)
+Theorem C07_emitted_messages_acceptable : forall (c : config) (honest : nat -> bool) (input : nat -> chain),
+  committee_wf c -> c_total c <= 65535 -> (forall k, honest k = true -> input k <> []) ->
+  forall acts a k e, RefineNet.all_ok c honest (RefineNet.net0 input) acts ->
+    RefineNet.aok c honest (RefineNet.nrun c (RefineNet.net0 input) acts) a -> RefineNet.act_event a = Some (k, e) ->
+    forall r p v j t rank, In (OBroadcast r p v j t) (i_out (RefineNet.n_inst (RefineNet.nstep c (RefineNet.nrun c (RefineNet.net0 input) acts) a) k)) ->
+      RefineNode.adm c honest (RefineNet.n_votes (RefineNet.nstep c (RefineNet.nrun c (RefineNet.net0 input) acts) a)) (mkM k r p v rank j) /\
+      (v <> [] -> RefineNode.evid c honest input k (RefineNet.n_votes (RefineNet.nstep c (RefineNet.nrun c (RefineNet.net0 input) acts) a)) v).
+Proof. exact RefineNet.network_emissions. Qed.
+Print Assumptions C07_emitted_messages_acceptable.
 
 (* non-vacuity: a concrete run (3 members, subject 0 with input [1;2;3]) passes QUALITY, PREPARE, COMMIT and decides *)
 Definition ex_cfg := mkCfg [10; 30; 30] 70 4 2 2000 [2000; 3000; 4500] [700; 900; 1100].
